@@ -126,6 +126,7 @@ impl CPUEmulator {
                 );
 
                 self.change_mod_wr_segment(segment as _);
+                self.change_mod_wr_page(0);
 
                 data[std::mem::size_of::<ModulationHead>()..].as_ptr() as *const u16
             } else {
